@@ -481,7 +481,7 @@ func (x *treeExec) factsFor(m, raw string, hdr map[string]string) facts {
 				seen[key] = true
 				sp := splitsOf(sg.Els, ps, 64)
 				if len(sp) > 0 {
-					fx.adm = append(fx.adm, []string{sg.T, encBytes(ps)})
+					fx.adm = append(fx.adm, []string{encBytes(sg.T), encBytes(ps)})
 				}
 				for _, one := range sp {
 					vals := make([]string, len(one))
@@ -489,7 +489,7 @@ func (x *treeExec) factsFor(m, raw string, hdr map[string]string) facts {
 						d, _ := pctDecode(v)
 						vals[k] = encBytes(d)
 					}
-					fx.splits = append(fx.splits, []interface{}{sg.T, encBytes(ps), vals})
+					fx.splits = append(fx.splits, []interface{}{encBytes(sg.T), encBytes(ps), vals})
 				}
 			}
 		}
@@ -510,6 +510,30 @@ func (x *treeExec) factsFor(m, raw string, hdr map[string]string) facts {
 		}
 	}
 	return fx
+}
+
+// encRoute encodes every text of an abstract route with encBytes so that the texts the
+// specification concatenates and compares are in the same alphabet as the recorded values.
+func encRoute(r aRoute) aRoute {
+	out := aRoute{Gram: r.Gram, Raw: encBytes(r.Raw)}
+	for _, s := range r.Segs {
+		s2 := s
+		s2.T = encBytes(s.T)
+		s2.Els = make([]aEl, len(s.Els))
+		for i, e := range s.Els {
+			e.V = encBytes(e.V)
+			e.Re = encBytes(e.Re)
+			s2.Els[i] = e
+		}
+		if s2.Binds == nil {
+			s2.Binds = []string{}
+		}
+		out.Segs = append(out.Segs, s2)
+	}
+	if out.Segs == nil {
+		out.Segs = []aSeg{}
+	}
+	return out
 }
 
 func encParams(p map[string]string) map[string]string {
@@ -574,9 +598,12 @@ func (x *treeExec) run(tr *traceWriter) {
 	for i, e := range c.H {
 		acc, detail := x.register(i, e)
 		x.accept = append(x.accept, acc)
-		tr.emit(map[string]interface{}{"ev": "AddRoute", "m": e.M, "r": e.R, "accepted": acc, "call": e.Call, "detail": encBytes(detail)})
+		tr.emit(map[string]interface{}{"ev": "AddRoute", "m": e.M, "r": encRoute(e.R), "accepted": acc, "call": e.Call, "detail": encBytes(detail)})
 	}
 	for _, n := range c.Names {
+		if x.routes[n.Reg] == nil {
+			continue // the registration was rejected: there is no handle to name
+		}
 		panicked := false
 		func() {
 			defer func() {
